@@ -141,10 +141,15 @@ type appCfg struct {
 	Decoy         bool // a second Handle wrapper with the opposite options is built afterwards (its route is never requested)
 	NilHandlers   bool // handlers that are not customised are passed as nil explicitly (WithErrorHandler(nil)): documented as "the default is used"
 	ErrHPassive   bool // the custom error handler only answers the request; it does not tell the framework to stop (gin: no Abort)
+	// Fallback (gin, echo, fiber): the handler is not mounted on the route the requests ask for but as
+	// what the framework runs for requests no route matches - 1: the not-found handler (gin NoRoute,
+	// echo RouteNotFound, fiber: a trailing app.Use), 2 (gin): the method-not-allowed handler.
+	// Such requests pass the engine-level scope middleware like any other.
+	Fallback int
 }
 
 func (c appCfg) String() string {
-	return fmt.Sprintf("%s mw=%d customErr=%v(passive=%v) nilHandlers=%v customClose=%v handle=%v recovery=%v customHandle=%v ctl=%v noScopeMW=%v init=%v decoy=%v",
+	return fmt.Sprintf("fallback=%d ", c.Fallback) + fmt.Sprintf("%s mw=%d customErr=%v(passive=%v) nilHandlers=%v customClose=%v handle=%v recovery=%v customHandle=%v ctl=%v noScopeMW=%v init=%v decoy=%v",
 		c.Framework, c.NMw, c.CustomErr, c.ErrHPassive, c.NilHandlers, c.CustomClose, c.UseHandle, c.Recovery, c.CustomHandle, c.CtlRegistered, c.NoScopeMW, c.HasInit, c.Decoy)
 }
 
@@ -536,7 +541,16 @@ func ginAdapter(w *webWorld, p godi.Provider, cfg appCfg) func(string) (int, any
 			godigin.WithResolutionErrorHandler(func(c *gin.Context, err error) { w.count(reqID(c.Request), "decoy"); c.AbortWithStatus(595) }))
 		e.GET("/decoy", decoy)
 	}
-	e.GET("/x", final)
+	switch cfg.Fallback {
+	case 1:
+		e.NoRoute(final)
+	case 2:
+		e.HandleMethodNotAllowed = true
+		e.POST("/x", func(c *gin.Context) { c.Status(204) })
+		e.NoMethod(final)
+	default:
+		e.GET("/x", final)
+	}
 	return func(id string) (status int, escaped any) {
 		rec := httptest.NewRecorder()
 		func() {
@@ -601,7 +615,11 @@ func echoAdapter(w *webWorld, p godi.Provider, cfg appCfg) func(string) (int, an
 			godiecho.WithResolutionErrorHandler(func(c echo.Context, err error) error { w.count(reqID(c.Request()), "decoy"); return c.NoContent(595) }))
 		e.GET("/decoy", decoy)
 	}
-	e.GET("/x", final)
+	if cfg.Fallback != 0 {
+		e.RouteNotFound("/*", final)
+	} else {
+		e.GET("/x", final)
+	}
 	return func(id string) (status int, escaped any) {
 		rec := httptest.NewRecorder()
 		func() {
@@ -679,7 +697,11 @@ func fiberAdapter(w *webWorld, p godi.Provider, cfg appCfg) func(string) (int, a
 			godifiber.WithResolutionErrorHandler(func(c *fiber.Ctx, err error) error { w.count(fid(c), "decoy"); return c.SendStatus(595) }))
 		app.Get("/decoy", decoy)
 	}
-	app.Get("/x", final)
+	if cfg.Fallback != 0 {
+		app.Use(final) // the documented way to write a 404 handler: a middleware after all routes
+	} else {
+		app.Get("/x", final)
+	}
 	return func(id string) (status int, escaped any) {
 		resp, err := app.Test(newReq(id), -1)
 		if err != nil {
@@ -877,7 +899,7 @@ func judge(cfg appCfg, pl *plan, l *reqLog, status int, escaped any, providerClo
 var probeType = reflectTypeOfProbe()
 
 func TestC16Web(t *testing.T) {
-	col := evid.New("C16", "requests", "for each of net/http, chi, gin, echo, fiber: generated application configurations (0-3 middlewares, custom/default error and close-error handlers, plain handler or Handle wrapper with/without panic recovery and custom handlers, controller registered or not, Handle mounted with/without the scope middleware, optional initializer) x request sequences and concurrent batches (2-12 requests) x exit path per request (ok, middleware error at position i, handler error, handler panic, scope-creation failure, client gone: the request context is cancelled while the handler runs, so the scope's context watcher closes the scope before the middleware's own Close) plus requests after the provider was closed; oracle from callback logs and a scoped disposable probe: one scope per request, identical for every middleware (in order), the handler, the probe's own scope/context and the controller Handle resolves; concurrent requests never share; scope disposed and probe closed exactly once after every exit path; error handler runs and handler does not on middleware error / scope-creation failure; Handle calls the method iff resolution succeeded else exactly one error handler, and swallows panics iff recovery is on; non-trivial = exit path != ok, >=2 middlewares, or a concurrent batch >=4")
+	col := evid.New("C16", "requests", "for each of net/http, chi, gin, echo, fiber: generated application configurations (0-3 middlewares, custom/default error and close-error handlers, plain handler or Handle wrapper with/without panic recovery and custom handlers, controller registered or not, Handle mounted with/without the scope middleware, optional initializer; gin, echo, fiber: the handler mounted on the requested route or as the framework's not-found / method-not-allowed handler) x request sequences and concurrent batches (2-12 requests) x exit path per request (ok, middleware error at position i, handler error, handler panic, scope-creation failure, client gone: the request context is cancelled while the handler runs, so the scope's context watcher closes the scope before the middleware's own Close) plus requests after the provider was closed; oracle from callback logs and a scoped disposable probe: one scope per request, identical for every middleware (in order), the handler, the probe's own scope/context and the controller Handle resolves; concurrent requests never share; scope disposed and probe closed exactly once after every exit path; error handler runs and handler does not on middleware error / scope-creation failure; Handle calls the method iff resolution succeeded else exactly one error handler, and swallows panics iff recovery is on; non-trivial = exit path != ok, >=2 middlewares, or a concurrent batch >=4")
 	defer col.Flush()
 	names := []string{"http", "chi", "gin", "echo", "fiber"}
 	rapid.Check(t, func(rt *rapid.T) {
@@ -897,6 +919,10 @@ func TestC16Web(t *testing.T) {
 		}
 		if cfg.UseHandle {
 			cfg.NoScopeMW = rapid.IntRange(0, 5).Draw(rt, "noScopeMW") == 0
+		}
+		if fb := rapid.IntRange(0, 5).Draw(rt, "fallback"); fb >= 4 && (cfg.Framework == "gin" || cfg.Framework == "echo" || cfg.Framework == "fiber") {
+			cfg.Fallback = fb - 3
+			col.Label("fallback-handler")
 		}
 		w := &webWorld{}
 		p, err := buildProvider(w, cfg)
